@@ -17,7 +17,7 @@ def run(ctx):
 
     # ---- every directed multigraph, every algorithm, crate functions and CALL procedures
     if q:
-        fams = [("{1, 2, 3}", 3, A.W2, 1), ("{2, 3}", 2, A.W3, 1), ("{4}", 2, A.W2, 1)]
+        fams = [("{1, 2, 3}", 3, A.W2, 1, "EmitAlt"), ("{2, 3}", 2, A.W3, 1), ("{4}", 2, A.W2, 1)]
         pfam = [("{2, 3}", 2, "{2}", 2)]
     else:
         fams = [("{1, 2}", 4, A.W3, 1), ("{3}", 3, A.W3, 1), ("{3}", 4, A.W2, 1, "EmitAlt"), ("{4}", 2, A.W3, 1), ("{4}", 3, A.W2, 1, "EmitAlt")]
@@ -32,20 +32,14 @@ def run(ctx):
                "quick tier: <=3 nodes/<=3 relationships and 4 nodes/<=2 relationships with weights {1,2}, <=3 nodes/<=2 relationships "
                "with weights {1,2,3}; thorough: every multigraph with <=3 nodes/<=4 relationships and <=4 nodes/<=3 relationships, "
                "weights {1,2,3} up to 3 (2 for 4 nodes) relationships and {1,2} at the largest relationship count")
-    sp = ctx.write_scripts("all", scripts)
-    tr = ctx.run_harness("algo", sp, name="all", args=[ONLY, "proj=basic", "rep=1", "repalgos=tri,lcc"], timeout=7200)
-    ctx.validate("Algo_Trace", A.TRACE, tr, name="all", corrupt=A.corrupt, timeout=7200)
-    # label / type / weight projections asked through CALL (two relationship types, label subsets)
-    scripts = A.graphs(ctx, pfam, "proj")
-    sp = ctx.write_scripts("proj", scripts)
-    tr = ctx.run_harness("algo", sp, name="proj", args=[ONLY, "proj=full", "rep=0"], timeout=7200)
-    ctx.validate("Algo_Trace", A.TRACE, tr, name="proj", corrupt=A.corrupt, timeout=7200)
-    # larger graphs, still against the brute-force definitions: random 5/6-node multigraphs drawn by TLC -simulate
-    walks = ctx.tlc_gen("MC_Algo", A.gen("{5}", 7, canon="FALSE", emit="", inv="SimEmit"), "mid5", simulate=(40 if q else 400, 13), workers=2)
-    walks += ctx.tlc_gen("MC_Algo", A.gen("{6}", 9, canon="FALSE", emit="", inv="SimEmit"), "mid6", simulate=(10 if q else 150, 16), workers=2)
-    sp = ctx.write_scripts("mid", walks)
-    tr = ctx.run_harness("algo", sp, name="mid", args=[ONLY, "proj=basic", "rep=1", "repalgos=tri,lcc", "prmaxit=2"], timeout=7200)
-    ctx.validate("Algo_Trace", A.TRACE, tr, name="mid", corrupt=A.corrupt, timeout=7200)
+    # label / type / weight projections asked through CALL (two relationship types, label subsets): prefix "proj";
+    # larger graphs, still against the brute-force definitions: random 5/6-node multigraphs drawn by TLC -simulate: prefix "mid"
+    pscripts = A.graphs(ctx, pfam, "proj")
+    walks = A.mid_graphs(ctx, 40 if q else 400, 10 if q else 150)
+    sp = A.batch(ctx, "graphs", [("all", scripts), ("proj", pscripts), ("mid", walks)])
+    tr = ctx.run_harness("algo", sp, name="graphs", args=[ONLY, "proj=basic", "fullprefix=proj", "midprefix=mid", "rep=%d" % (1 if q else 2),
+                                                          "repalgos=tri,lcc"], timeout=7200)
+    ctx.validate("Algo_Trace", A.TRACE, tr, name="graphs", corrupt=A.corrupt, timeout=7200)
     if not q:
         # every insertion ORDER of every 3-node graph with <= 3 relationships (weights {1,2})
         seqs = ctx.tlc_gen("MC_Algo", A.gen("{3}", 3, w=A.W2, canon="FALSE"), "allseq-n3e3", workers=4, timeout=3000)
